@@ -40,6 +40,10 @@ func GenProgram(seed uint64, mode string, idx int) *Program {
 	for g.budget > 0 {
 		prog = append(prog, g.stmt()...)
 	}
+	// every 25th program ends with a long history of caught host-function errors (7 variants in rotation)
+	if !g.pool && idx%25 == 7 {
+		prog = append(prog, g.longHistory((idx/25)%7)...)
+	}
 	// final observation of every scalar variable still in scope, then the chunk's results
 	var finals []*E
 	for _, v := range g.vars(func(v *VarInfo) bool {
@@ -152,7 +156,7 @@ func (h hist) expr(e *E) {
 			h["call:multi-last"]++
 		}
 	case "str":
-		if strings.HasPrefix(e.S, "__") {
+		if strings.HasPrefix(e.S, "__") && !strings.Contains(e.S, " ") {
 			h["meta:"+e.S]++
 		}
 		h["expr:str"]++
@@ -233,7 +237,7 @@ func genMain(args []string) {
 	}
 	sort.Strings(keys)
 	for _, k := range keys {
-		hlib.Emit("H", k, strconv.Itoa(h[k]))
+		hlib.Emit("H", strings.ReplaceAll(k, " ", "_"), strconv.Itoa(h[k]))
 	}
 }
 
